@@ -927,6 +927,8 @@ func (e *Exec) global(g *ssa.Global) *Obj {
 		v = IfaceV{V: &ErrV{Root: name, Msg: StrLit(name)}}
 	} else if _, isMap := t.Underlying().(*types.Map); isMap && (strings.HasSuffix(g.Name(), "_name") || strings.HasSuffix(g.Name(), "_value")) {
 		v = &ModelObj{Kind: "enummap", Name: g.Name()}
+	} else if strings.Contains(e.W.prog.Fset.Position(g.Pos()).Filename, "zz_verif_") {
+		v = e.zero(t) // harness-declared package variable (no initialiser expected)
 	} else if st, ok := t.Underlying().(*types.Struct); ok && st.NumFields() == 0 {
 		v = e.zero(t)
 	} else {
